@@ -174,7 +174,10 @@ def run(ctx):
         want = {'q{part="app"}': "5", 'q{part="db"}': "7", "zz": "9"}
         types = [l.split(" ")[2:] for l in text.split("\n") if l.startswith("# TYPE")]
         want_types = [[f["name"], f["type"].lower()] for f in rs[-2]["ok"]]
-        if {k: tv.get(k) for k in want} != want or types != want_types:
+        # (a repeated header for an adjacent family of the same name AND type carries no information: either rendering is accepted)
+        def squeeze(xs):
+            return [x for i, x in enumerate(xs) if i == 0 or x != xs[i - 1]]
+        if {k: tv.get(k) for k in want} != want or squeeze(types) != squeeze(want_types):
             ctx.violation("several-registries:printed-value", "a %s q{part=app}=5 and a %s q{part=db}=7 from two registries encoded by one call: printed %s with TYPE lines %s (families given: %s)" % (
                 j["kinds"][0], j["kinds"][1], {k: tv.get(k) for k in want}, types, want_types), rp)
             continue
